@@ -106,6 +106,41 @@ CHECKS = {
             'batch size x bloom filter x array/object columns x duplicate keys inside a dump.',
             'Trusted: the table model; JSON columns compared after json.loads (SQLite stores JSON text and the '
             'same text is handed downstream).', '3/C20'),
+    'C01': ('pipeline-lab', 'exploration',
+            'runtime self-differential monitor: lazy run vs step-by-step materialised run vs nested/conditional '
+            'regroupings vs process()/datastream(); observers\' persisted content compared across strategies; '
+            'alien-link family',
+            'Typed random programs (1..4 sources, 1..8 links over built-ins, observers and user callables in five '
+            'shapes) are evaluated under every strategy the statement names and compared type-strictly; links '
+            'that are not steps must raise.',
+            'Trusted: deep copies between steps in the step-by-step reference; row/rows user callables are '
+            'applied by the harness itself in the reference; late-filled dump counters and stats not compared.',
+            '3/C01'),
+    'C02': ('pipeline-lab', 'exploration',
+            'runtime invariant monitor: boundary probes after every link check streams<->descriptors, unique '
+            'names, row keys, castability of every non-null value; final validating results() and Package.valid',
+            'Typed random programs plus a type x operation matrix (computed fields, join aggregates, '
+            'concatenate, unpivot, set_type, find_replace, inference over python values, auto-naming after '
+            'deletions) run with a probe at every step boundary.',
+            'Trusted: tableschema Field.cast_value as "valid for the declared type"; probes are checked to be '
+            'transparent on every program (else the case is discarded as inconclusive).', '3/C02'),
+    'C05': ('pipeline-lab', 'exploration',
+            'runtime differential + independent readers: pipeline with/without the observer; persisted content '
+            '(csv/json/zip/ndjson/print callbacks/stats) vs the stream at its position; finalizer call count and '
+            'pass-through counters at callback time',
+            'Base programs with discarding suffixes x every insertion position x every observer kind (and '
+            'pairs); downstream rows/schemas must not change and the observer must have captured every '
+            'resource and row present at its position.',
+            'Trusted: independent readers of vlib/iolab.py; schemas compared on name/type/primaryKey/'
+            'missingValues.', '3/C05'),
+    'C06': ('pipeline-lab', 'exploration',
+            'runtime stream meter: rows pulled at counting sources vs ordinal of each delivered row; '
+            'growth-based verdict across input sizes',
+            'Every non-buffering step kind alone and random compositions, 1..3 sources (inferred iterables and '
+            'explicit loads) and CSV files, each run at N=2000 and N=20000 (thorough +200000); the maximum '
+            'look-ahead must not grow with N.',
+            'Any constant look-ahead is accepted (sample sizes are read off the measurements, not hard-coded); '
+            'for CSV files pulls are counted at the tabulator Stream.iter boundary.', '3/C06'),
 }
 
 NOT_BUILT_REASON = 'check not built yet in this round (design in DESIGN.md section 3); no claim made'
